@@ -179,6 +179,9 @@ class Nullness:
             return False          # &d->m computes an address, no access
         if k in ("SizeOf", "Sizeof", "UnaryExprOrTypeTrait"):
             return False
+        if k == "Call" and n.get("member") and ch and _is(ch[0], d) and not (n.get("fn") or "").split("::")[-1].startswith("operator"):
+            # a member function called through d (d->f()): undefined for a NULL d even if f never touches *this
+            out.append((n, "`%s->%s()`" % (strip(ch[0])["n"], (n.get("fn") or "").split("::")[-1])))
         if k == "Call":
             from engines import call_args
             args = call_args(n)
